@@ -133,6 +133,18 @@ def auto_insensitive(module, kind, node):
             return 'consumed by set.{}()'.format(call_attr(gp))
     if isinstance(node, ast.Call) and call_name(node) in ('list', 'tuple') and isinstance(parent, ast.Call) and call_name(parent) in INSENSITIVE_CALLS:
         return 'consumed by {}()'.format(call_name(parent))
+    if isinstance(node, ast.For) and not node.orelse:
+        # a loop whose whole body feeds sets (`acc.update(..)`, `acc.add(..)`, `acc |= ..`): the union does not depend on the visiting order
+        fn = module.enclosing_function(node)
+
+        def set_sink(st):
+            if isinstance(st, ast.Expr) and isinstance(st.value, ast.Call) and call_attr(st.value) in ('update', 'add') and isinstance(st.value.func.value, ast.Name):
+                return setlike(st.value.func.value, fn, set())
+            if isinstance(st, ast.AugAssign) and isinstance(st.op, ast.BitOr) and isinstance(st.target, ast.Name):
+                return setlike(st.target, fn, set())
+            return False
+        if node.body and all(set_sink(st) for st in node.body):
+            return 'the loop only adds to a set'
     return None
 
 
